@@ -165,16 +165,19 @@ def perform(m, defn, theta, x0, plan, rng, seed, max_steps=250):
             horizon *= 3
         m.pre_tau = p.get("pre_tau")
         m._epsilon = p.get("epsilon", 0.03)
+        # the initial time need not be zero (a large one makes absolute-versus-relative time comparisons visible)
+        t_start = float(rng.choice([0.0, 0.0, 0.0, 250.0, 1000.0]))
+        m.initial_values = (np.array(x0, float), np.float64(t_start))
         if p["grid"]:
             npts = rng.randint(3, 9)
             if rng.random() < 0.5:
-                g = np.linspace(0.0, horizon, npts)
+                g = t_start + np.linspace(0.0, horizon, npts)
             else:
-                g = np.concatenate([[0.0], np.sort(np.array([rng.uniform(0, horizon) for _ in range(npts - 1)]))])
+                g = t_start + np.concatenate([[0.0], np.sort(np.array([rng.uniform(0, horizon) for _ in range(npts - 1)]))])
             tin = {"list": list(g), "tuple": tuple(g), "array": g}[p["grid"]]
         else:
             g = None
-            tin = horizon if rng.random() < 0.7 else np.float64(horizon)
+            tin = (t_start + horizon) if rng.random() < 0.7 else np.float64(t_start + horizon)
         s = (seed * 1000 + k) % (2 ** 31)
         rec_run = {"plan": dict(p), "seed": s, "horizon": horizon, "grid": None if g is None else [float(v) for v in g]}
         with instrument.recording() as rec:
